@@ -260,6 +260,10 @@ func (evkg EvaluationKeyGenProtocol) GenEvaluationKey(share EvaluationKeyGenShar
 		return fmt.Errorf("cannot GenEvaluationKey: share LevelP != evk LevelP")
 	}
 
+	if share.BaseTwoDecomposition != evk.BaseTwoDecomposition {
+		return fmt.Errorf("cannot GenEvaluationKey: share BaseTwoDecomposition != evk BaseTwoDecomposition")
+	}
+
 	m := share.Value
 	p := crp.Value
 
